@@ -36,7 +36,7 @@ PROPS = {
                 rule="global key (tap) searched in all sent bytes (both byte orders) and as XOR of two aligned 128-bit fields; distinct by run"),
     "C08": dict(modules=["PolytuneModel.Thm.C08", "PolytuneModel.Thm.Sites", "PolytuneModel.Thm.C08masked"], theorems=["PolytuneModel.Masked.C08_masked_no_panic", "PolytuneModel.Masked.C08_cex_masked_extra_some", "PolytuneModel.Masked.merge_inRange", "PolytuneModel.C08_length_guards_present", "PolytuneModel.decVec_bounded", "PolytuneModel.decN_length", "PolytuneModel.C08_ashare_no_panic", "PolytuneModel.C08_dvalue_no_panic", "PolytuneModel.C08_cex_ashare_dm_short", "PolytuneModel.C08_cex_dvalue_short"], drive="C08", cases=dict(quick=150, thorough=1),
                 rule="every adversary message index x 8 byte-level classes (sampled in quick), structure-aware classes on nested vectors, crash after k-th message; oracle: Ok or Err, no panic, no hang, no allocation > 64x bytes + 1 MiB; distinct by (victim role, phase, class, outcome)"),
-    "C09": dict(modules=["PolytuneModel.Thm.C09"], theorems=["PolytuneModel.C09_len_value_independent", "PolytuneModel.C09_len_formula", "PolytuneModel.C09_shares_msg", "PolytuneModel.C09_masked_msg", "PolytuneModel.C09_labels_msg", "PolytuneModel.C09_row_len"], drive="C09", cases=dict(quick=40, thorough=400),
+    "C09": dict(modules=["PolytuneModel.Thm.C09", "PolytuneModel.Thm.C09tied"], theorems=["PolytuneModel.OnlineMsgs.C09_tied_lengths_public", "PolytuneModel.OnlineMsgs.walk_masked_regs", "PolytuneModel.C09_len_value_independent", "PolytuneModel.C09_len_formula", "PolytuneModel.C09_shares_msg", "PolytuneModel.C09_masked_msg", "PolytuneModel.C09_labels_msg", "PolytuneModel.C09_row_len"], drive="C09", also=["C01m"], cases=dict(quick=40, thorough=400),
                 rule="two executions per public configuration (different inputs and coins); per ordered pair the (phase,len) sequence vs the model's pattern of the public parameters; distinct by (circuit, p_eval, p_out)"),
     "C10": dict(modules=["PolytuneModel.Thm.C10", "PolytuneModel.Thm.C10laand", "PolytuneModel.Thm.C01C10", "PolytuneModel.Thm.GenArith", "PolytuneModel.Thm.C10abit"], theorems=["PolytuneModel.C10_abit", "PolytuneModel.C10_abit_valid", "PolytuneModel.Gen_bucketSize_pos", "PolytuneModel.C10_bucket", "PolytuneModel.C10_beaver", "PolytuneModel.C10_haand_pair", "PolytuneModel.combine_two", "PolytuneModel.C10_laand_rel", "PolytuneModel.C10_laand_valid", "PolytuneModel.andOK_of_beaver"], drive="C10", also=["C10u", "C10m", "C10l"], cases=dict(quick=8, thorough=40),
                 rule="real coin toss + fashare + beaver_aand among n parties through wrappers; MAC relation for every ordered pair and index, AND relation for every triple, identical shared coins; distinct by (n, shares, triples)"),
